@@ -5,4 +5,4 @@ from props import common_rexpy as cr
 def run(tier, seed):
     return cr.run('C18', tier, seed, **ARGS)
 
-ARGS = dict(level='exploration')
+ARGS = dict(level='other')
